@@ -155,7 +155,7 @@ Definition plugin_or_attribute_problem (lvl : level) (sc : scenario) : bool :=
 
 (* what the implementation decides (proved equal to the model's rejection) *)
 Definition should_fail_impl (lvl : level) (sc : scenario) : bool :=
-  negb (s_integrity_ok sc) || enforced_failure lvl sc || plugin_or_attribute_problem lvl sc.
+  negb (s_integrity_ok sc) || plugin_or_attribute_problem lvl sc || enforced_failure lvl sc.
 
 (* well-formed scenarios: capabilities without duplicates of the two
    verification capabilities (duplicates would make the plugin be asked, and
@@ -229,7 +229,9 @@ Definition spec_shape (lvl : level) (sc : scenario) (o : obs) : bool :=
   && match o_exec o with
      | Some (cs, _) => nonempty cs && list_eqb cap_eqb cs (asked lvl sc)
      | None => true
-     end.
+     end
+  (* an accepting run has executed the plugin iff there was something to ask it *)
+  && (negb (accepted o) || Bool.eqb (negb (is_none (o_exec o))) (nonempty (asked lvl sc))).
 
 (* the property on what the implementation did: exact acceptance rule (where
    only the implementation-specific strictness about non-critical attributes
@@ -266,6 +268,24 @@ Definition run (cs : list case) : list (N * N * N) :=
     (fun c => opt_eqb obs_eqb (model (c_in c)) (c_obs c))
     (fun c => negb (wf (c_in c)) || spec_ok (c_in c) (c_obs c))
     (fun c => fp (c_in c)) cs.
+
+(* ---------- the same scenario with one native fact changed (statements of
+   C02_log_reports and C02_capability_replaces) ---------- *)
+Definition set_auth (n : N) (sc : scenario) : scenario :=
+  mk_sc (s_integrity_ok sc) (s_plugin_attr sc) (s_minver_attr sc) (s_minver_valid sc) (s_other sc)
+        (s_nonstring_crit sc) n (s_identity_ok sc) (s_expired sc) (s_ts_ok sc) (s_rev_ok sc) (s_pm sc) (s_presp sc).
+Definition set_identity (b : bool) (sc : scenario) : scenario :=
+  mk_sc (s_integrity_ok sc) (s_plugin_attr sc) (s_minver_attr sc) (s_minver_valid sc) (s_other sc)
+        (s_nonstring_crit sc) (s_auth sc) b (s_expired sc) (s_ts_ok sc) (s_rev_ok sc) (s_pm sc) (s_presp sc).
+Definition set_expired (b : bool) (sc : scenario) : scenario :=
+  mk_sc (s_integrity_ok sc) (s_plugin_attr sc) (s_minver_attr sc) (s_minver_valid sc) (s_other sc)
+        (s_nonstring_crit sc) (s_auth sc) (s_identity_ok sc) b (s_ts_ok sc) (s_rev_ok sc) (s_pm sc) (s_presp sc).
+Definition set_ts_ok (b : bool) (sc : scenario) : scenario :=
+  mk_sc (s_integrity_ok sc) (s_plugin_attr sc) (s_minver_attr sc) (s_minver_valid sc) (s_other sc)
+        (s_nonstring_crit sc) (s_auth sc) (s_identity_ok sc) (s_expired sc) b (s_rev_ok sc) (s_pm sc) (s_presp sc).
+Definition set_rev_ok (b : bool) (sc : scenario) : scenario :=
+  mk_sc (s_integrity_ok sc) (s_plugin_attr sc) (s_minver_attr sc) (s_minver_valid sc) (s_other sc)
+        (s_nonstring_crit sc) (s_auth sc) (s_identity_ok sc) (s_expired sc) (s_ts_ok sc) b (s_pm sc) (s_presp sc).
 
 (* ---------- what a legal override entry is (statement of C02_levels) ---------- *)
 Definition legal_entry (kv : string * string) : Prop :=
